@@ -279,6 +279,32 @@ theorem attr_slots_canonical (tbl : List (String × List AStep)) (h : attrTableO
   simp only [attrTableOK, Bool.and_eq_true] at h
   exact slotGet_of_consistent h.1.1 (hinv.1 s g hs)
 
+/-- **Link-less networks.**  On an object without links no attribute is ever stored (the store
+loops over an empty edge sequence), so its table is `linkless tbl` — for *every* class table, clean
+or not, every query sequence observes what a fresh object observes (the attribute is missing each
+time) and the attribute store stays empty. -/
+theorem attr_queries_pure_linkless (tbl : List (String × List AStep)) (qs : List String) :
+    arun (linkless tbl) AState.init qs = qs.map (afresh (linkless tbl)) ∧
+    afinal (linkless tbl) AState.init qs = AState.init := by
+  induction qs with
+  | nil => exact ⟨rfl, rfl⟩
+  | cons q t ih =>
+    simp only [arun, afinal, List.map_cons, afresh]
+    cases hf : findSteps q (linkless tbl) with
+    | none => exact ⟨by simp only [ih.1], ih.2⟩
+    | some steps =>
+      have hr : steps.all isRead = true := by
+        rw [findSteps_linkless] at hf
+        cases h0 : findSteps q tbl with
+        | none => simp [h0] at hf
+        | some s0 =>
+          simp only [h0, Option.map_some, Option.some.injEq] at hf
+          subst hf
+          simp [List.all_filter]
+      have hst := execSteps_reads AState.init steps hr
+      simp only [hst]
+      exact ⟨by simp only [ih.1], ih.2⟩
+
 /-- the hypothesis is needed — seeded change C06-5: the lag-weighted closeness fills the slot of the
 strength-weighted measures from the lags; whichever is asked first decides what the other sees -/
 example : arun [("lag_closeness", [.ensure "correlation_strength" 2, .use "correlation_strength"]),
